@@ -595,6 +595,79 @@ pub fn spaces(tier: Tier) -> Vec<Space> {
             judge(acc, case, &sp, &fam.name, "co-signers-use-different-flags", true);
         }));
     }
+    // (1e) larger transactions: every (n_in, n_out, idx) up to N x N, all flags; the unmutated spend must be accepted and a
+    // mutation of EACH input's vout / sequence and EACH output's value is judged by the reference (position dependence)
+    {
+        let all = families(&ks, 0);
+        let pick: Vec<Family> = all.into_iter().filter(|f| f.name == "P2PKH/CHECKSIG" || f.name == "2-of-3 signers [0, 2]/CHECKMULTISIG").collect();
+        let fams = Arc::new(pick);
+        let nf = fams.len() as u64;
+        let nmax = if thorough { 8usize } else { 5 };
+        let mut sh3: Vec<(usize, usize, usize)> = vec![];
+        for n_in in 1..=nmax {
+            for n_out in 1..=nmax {
+                for idx in 0..n_in {
+                    sh3.push((n_in, n_out, idx));
+                }
+            }
+        }
+        let n3 = sh3.len() as u64;
+        let ks2 = ks.clone();
+        v.push(Space::new("larger-shapes", nf * n3 * 12, move |case, acc| {
+            let c = coords(case.idx, &[nf, n3, 12]);
+            let fam = &fams[c[0] as usize];
+            let (n_in, n_out, idx) = sh3[c[1] as usize];
+            let flag = STD_FLAGS[c[2] as usize];
+            if flag & 0x1f == 3 && idx >= n_out {
+                return;
+            }
+            let Some(sp) = build_spend(&ks2, fam, fam.locking.clone(), base_tx(n_in, n_out), idx, 0x0000000200000003, flag) else { return };
+            judge(acc, case, &sp, &fam.name, "none", true);
+            let clone = |f: &dyn Fn(&mut Spend)| -> Spend {
+                let mut s = Spend { tx: sp.tx.clone(), idx: sp.idx, value: sp.value, unlocking: sp.unlocking.clone(), locking: sp.locking.clone() };
+                f(&mut s);
+                s
+            };
+            for k in 0..n_in {
+                judge(acc, case, &clone(&|s| s.tx.inputs[k].vout ^= 0x0100), &fam.name, &format!("input-vout:{}", k), false);
+                judge(acc, case, &clone(&|s| s.tx.inputs[k].sequence ^= 0x01000000), &fam.name, &format!("input-sequence:{}", k), false);
+            }
+            for k in 0..n_out {
+                judge(acc, case, &clone(&|s| s.tx.outputs[k].value ^= 0x0100), &fam.name, &format!("output-value:{}", k), false);
+            }
+        }));
+    }
+    // (1f) multisig with repeated keys and repeated signers: n keys drawn from {K0, K1} (every tuple), m of them required,
+    // signatures by every m-tuple of signers over {K0, K1} (with repetition) - the verdict is the reference's
+    {
+        let mut fams: Vec<Family> = vec![];
+        for n in 2..=3usize {
+            for kt in 0..(1usize << n) {
+                let keyidx: Vec<usize> = (0..n).map(|i| (kt >> i) & 1).collect();
+                for m in 1..=n {
+                    for st in 0..(1usize << m) {
+                        let signers: Vec<usize> = (0..m).map(|i| (st >> i) & 1).collect();
+                        let mut l = vec![small(m)];
+                        for k in &keyidx {
+                            l.push(push(&ks.pk[*k][0]));
+                        }
+                        l.push(small(n));
+                        l.push(Tok::Op(0xae));
+                        fams.push(Family { name: format!("{}-of-{} keys {:?} signers {:?}/CHECKMULTISIG", m, n, keyidx, signers), locking: l, signers, tail: vec![], multisig: true });
+                    }
+                }
+            }
+        }
+        let fams = Arc::new(fams);
+        let nf = fams.len() as u64;
+        let ks2 = ks.clone();
+        v.push(Space::new("multisig-repeated-keys", nf * 12, move |case, acc| {
+            let c = coords(case.idx, &[nf, 12]);
+            let fam = &fams[c[0] as usize];
+            let Some(sp) = build_spend(&ks2, fam, fam.locking.clone(), base_tx(2, 2), 1, 77, STD_FLAGS[c[1] as usize]) else { return };
+            judge(acc, case, &sp, &fam.name, "repeated-keys-or-signers", false);
+        }));
+    }
     // (1d) histories on ONE library object: sign on it (fills its sighash cache), attach the unlocking script, mutate it
     // through the API, then interpret that same object — the verdict must follow the object's current contents
     {
